@@ -495,6 +495,24 @@ func (c *checker) allBAR() {
 	}
 }
 
+var perms4 = func() [][]int {
+	var out [][]int
+	var rec func(cur []int, used int)
+	rec = func(cur []int, used int) {
+		if len(cur) == 4 {
+			out = append(out, append([]int{}, cur...))
+			return
+		}
+		for i := 0; i < 4; i++ {
+			if used&(1<<i) == 0 {
+				rec(append(cur, i), used|1<<i)
+			}
+		}
+	}
+	rec(nil, 0)
+	return out
+}()
+
 // ---- periodic registration -------------------------------------------------------------------------------
 
 // queried posts one tick of the period to the real periodic server and returns the (seid, urr) pairs the
@@ -553,33 +571,45 @@ func (c *checker) perio() {
 				if form == 2 && other >= 16 {
 					continue
 				}
-				id++
-				c.evals++
-				c.w.K.Reset()
-				tr := []byte{byte(w), byte(w >> 8), byte(w >> 16)}[:form]
-				ch := []*ie.IE{ie.NewURRID(id), ie.NewMeasurementMethod(0, 1, 0), ie.NewReportingTriggers(tr...), ie.NewMeasurementPeriod(P1)}
-				desc := map[string]interface{}{"op": "CreateURR", "triggers": fmt.Sprintf("% x", tr), "period_s": 3600}
-				c.nontr.Add(fmt.Sprint("perio", desc))
-				if err := c.w.G.CreateURR(seid, ie.NewCreateURR(ch...)); err != nil {
-					rep("perio:create-error", fmt.Sprintf("CreateURR with triggers % x failed: %v", tr, err), desc)
-					continue
+				// the registration must not depend on the order of the child IEs: PERIO alone (and no PERIO) under all 24
+				// orders of the four children, the other trigger combinations in the constructors' order
+				orders := [][]int{{0, 1, 2, 3}}
+				if other == -1 && form == 2 {
+					orders = perms4
 				}
-				wait()
-				q1, q2 := c.queried(P1), c.queried(P2)
-				k := [2]uint64{seid, uint64(id)}
-				if q1[k] != perio {
-					rep(fmt.Sprintf("perio:create-registration:perio=%v", perio), fmt.Sprintf("URR with triggers % x (PERIO=%v, period 3600s): queried on a tick of its period = %v", tr, perio, q1[k]), desc)
-				}
-				if q2[k] {
-					rep("perio:create-wrong-period", fmt.Sprintf("URR with period 3600s queried on a tick of period 7200s"), desc)
-				}
-				// removal unregisters
-				if _, err := c.w.G.RemoveURR(seid, ie.NewRemoveURR(ie.NewURRID(id))); err != nil {
-					rep("perio:remove-error", fmt.Sprintf("RemoveURR: %v", err), desc)
-				}
-				wait()
-				if c.queried(P1)[k] {
-					rep("perio:remove-keeps-registration", "a removed URR is still queried on a tick of its period", desc)
+				for _, order := range orders {
+					id++
+					c.evals++
+					c.w.K.Reset()
+					tr := []byte{byte(w), byte(w >> 8), byte(w >> 16)}[:form]
+					base := []*ie.IE{ie.NewURRID(id), ie.NewMeasurementMethod(0, 1, 0), ie.NewReportingTriggers(tr...), ie.NewMeasurementPeriod(P1)}
+					ch := make([]*ie.IE, len(base))
+					for i, j := range order {
+						ch[i] = base[j]
+					}
+					desc := map[string]interface{}{"op": "CreateURR", "triggers": fmt.Sprintf("% x", tr), "period_s": 3600, "child_order(0=URRID,1=Method,2=Triggers,3=Period)": fmt.Sprint(order)}
+					c.nontr.Add(fmt.Sprint("perio", desc))
+					if err := c.w.G.CreateURR(seid, ie.NewCreateURR(ch...)); err != nil {
+						rep("perio:create-error", fmt.Sprintf("CreateURR with triggers % x failed: %v", tr, err), desc)
+						continue
+					}
+					wait()
+					q1, q2 := c.queried(P1), c.queried(P2)
+					k := [2]uint64{seid, uint64(id)}
+					if q1[k] != perio {
+						rep(fmt.Sprintf("perio:create-registration:perio=%v", perio), fmt.Sprintf("URR with triggers % x (PERIO=%v, period 3600s): queried on a tick of its period = %v", tr, perio, q1[k]), desc)
+					}
+					if q2[k] {
+						rep("perio:create-wrong-period", fmt.Sprintf("URR with period 3600s queried on a tick of period 7200s"), desc)
+					}
+					// removal unregisters
+					if _, err := c.w.G.RemoveURR(seid, ie.NewRemoveURR(ie.NewURRID(id))); err != nil {
+						rep("perio:remove-error", fmt.Sprintf("RemoveURR: %v", err), desc)
+					}
+					wait()
+					if c.queried(P1)[k] {
+						rep("perio:remove-keeps-registration", "a removed URR is still queried on a tick of its period", desc)
+					}
 				}
 			}
 		}
@@ -636,7 +666,7 @@ func RunC03(tier string) {
 	run.Set("evaluations", c.evals)
 	run.Set("distinct_nontrivial", c.nontr.Len())
 	run.Set("order_variants", c.orderN)
-	run.Set("rule", "Create/Update QER, URR, BAR grouped IEs: every presence subset of the optional children, child orders (all permutations up to 5/6 children, reversal + adjacent transpositions beyond), all 16 gate values, MBR/GBR over all UL != DL pairs of {0,1,255,256,2^32-1,2^32,2^40-1,0x0102030405}, QFI 0..63, every reporting-trigger bit in 2- and 3-octet form, every threshold/quota flag subset x 64-bit boundary values, BAR delay/count/id 0..255; periodic registration: Create URR with PERIO x every other single trigger bit x 2/3-octet form, tick of its period and of another period read from the simulated kernel's GET_MULTI_REPORTS requests, removal, and the four Update URR transitions of the PERIO bit; every evaluated shape is distinct")
+	run.Set("rule", "Create/Update QER, URR, BAR grouped IEs: every presence subset of the optional children, child orders (all permutations up to 5/6 children, reversal + adjacent transpositions beyond), all 16 gate values, MBR/GBR over all UL != DL pairs of {0,1,255,256,2^32-1,2^32,2^40-1,0x0102030405}, QFI 0..63, every reporting-trigger bit in 2- and 3-octet form, every threshold/quota flag subset x 64-bit boundary values, BAR delay/count/id 0..255; periodic registration: Create URR with PERIO x every other single trigger bit x 2/3-octet form (PERIO alone and no trigger under all 24 orders of the four child IEs), tick of its period and of another period read from the simulated kernel's GET_MULTI_REPORTS requests, removal, and the four Update URR transitions of the PERIO bit; every evaluated shape is distinct")
 	run.Set("exhaustive", true)
 	run.Set("samples", c.smp.List())
 	run.Set("bound", "value alphabets are boundary sets; the netlink measurement-period attribute is not compared (not in the property's list)")
